@@ -2,6 +2,7 @@ import IgVerif.Schema
 import IgVerif.Model.ConfB
 import IgVerif.Model.Closed
 import IgVerif.Model.ModuleOrder
+import IgVerif.Gen.C19Proto
 /-! `igdriver <model>`: reads one op per line on stdin, prints one answer per line.
 Byte strings are hex ("-" = empty). -/
 open IgVerif
@@ -197,9 +198,39 @@ def orderStep (_ : Unit) (toks : List String) : IO (Unit × String) := do
     return ((), "libs= broken= finished=1")
   | _ => return ((), "bad-op")
 
+/-- all schedules over {0,1,2} of the given length -/
+def allScheds : Nat → List (List Nat)
+  | 0 => [[]]
+  | n+1 => (allScheds n).flatMap fun s => [0 :: s, 1 :: s, 2 :: s]
+
+def protoStep (_ : Unit) (toks : List String) : IO (Unit × String) := do
+  let pick : String → Option OP.Proto
+    | "interrogate" => some Gen.interrogateProto
+    | "module" => some Gen.moduleProto
+    | _ => none
+  match toks with
+  | ["proto", which] =>
+    match pick which with
+    | none => return ((), "bad-op")
+    | some p =>
+      -- search the model for a schedule that loses data and still exits 0
+      let silent := (allScheds 7).find? fun s => let o := OP.run p s; o.lost && !o.exitNonZero
+      let sil := match silent with
+        | some s => ",".intercalate (s.map toString)
+        | none => "none"
+      return ((), s!"wellChecked={if OP.wellChecked p then 1 else 0} silentLoss={sil} stmts={p.body.length}")
+  | ["run", which, sched] =>
+    match pick which with
+    | none => return ((), "bad-op")
+    | some p =>
+      let o := OP.run p ((sched.splitOn ",").filterMap (·.toNat?))
+      return ((), s!"exitNonZero={if o.exitNonZero then 1 else 0} lost={if o.lost then 1 else 0}")
+  | _ => return ((), "bad-op")
+
 def main (args : List String) : IO UInt32 := do
   let stdin ← IO.getStdin
   match args with
   | ["db"] => loop stdin dbStep ({} : St); return 0
   | ["order"] => loop stdin orderStep (); return 0
+  | ["proto"] => loop stdin protoStep (); return 0
   | _ => IO.eprintln "usage: igdriver <model>"; return 2
